@@ -20,7 +20,7 @@ RULE = (
     "days; datetimes with microseconds 0/1/999999 and zones naive/UTC/+-hh:mm; timedeltas 0, 1s, 59s, 1d, "
     "multi-day, negative, 400d; None) plus random values, through carriers {Cell(), Cell.value=, "
     "Cell.set_value, Row.set_value, Table.set_value, VarSet(+set_value), UserFieldDecl(+set_value), "
-    "UserDefined, Meta.set_user_defined_metadata (new entry and overwrite of an entry of another type)} and "
+    "UserDefined, numbers also as percentage and currency cells (Cell(cell_type=), set_value(cell_type=, currency=)), Meta.set_user_defined_metadata (new entry and overwrite of an entry of another type)} and "
     "paths {direct, reparse of the element, document save->reopen}. One evaluation = one (value, carrier, "
     "path) read-back judged for value, Python type and lexical form of the written attribute. Class = "
     "(carrier, Python type, boundary tag, path). Sequences: rows of 2..8 values whose neighbours are often "
@@ -128,7 +128,7 @@ def typed_equal(v, got, meta=False):
     return False, "unknown type"
 
 
-def lexical_issue(v, attrs, prefix=OFFICE, text=None):
+def lexical_issue(v, attrs, prefix=OFFICE, text=None, numeric_type="float"):
     """Check the attributes written for value v; attrs is an lxml attrib mapping."""
     vt = attrs.get(prefix + "value-type")
     if v is None:
@@ -147,7 +147,9 @@ def lexical_issue(v, attrs, prefix=OFFICE, text=None):
         return need("boolean") or (None if s is not None and lex.RE_BOOLEAN.match(s) else f"boolean-value {s!r}")
     if isinstance(v, (int, float, Decimal)):
         s = getter("value")
-        return need("float") or (None if s is not None and lex.RE_DOUBLE.match(s) else f"office:value {s!r} not in xsd:double")
+        if numeric_type == "currency" and not attrs.get(prefix + "currency"):
+            return "currency cell without office:currency"
+        return need(numeric_type) or (None if s is not None and lex.RE_DOUBLE.match(s) else f"office:value {s!r} not in xsd:double")
     if isinstance(v, dt.datetime):
         s = getter("date-value")
         return need("date") or (None if s is not None and lex.RE_DATETIME.match(s) else f"date-value {s!r} not a dateTime")
@@ -166,6 +168,7 @@ def lexical_issue(v, attrs, prefix=OFFICE, text=None):
 
 
 CELL_CARRIERS = ["Cell()", "Cell.value=", "Cell.set_value", "Row.set_value", "Table.set_value"]
+TYPED_CELL_CARRIERS = ["Cell(percentage)", "Cell(currency)", "Cell.set_value(percentage)", "Table.set_value(currency)"]  # numbers only
 VAR_CARRIERS = ["VarSet()", "VarSet.set_value", "UserFieldDecl()", "UserFieldDecl.set_value", "UserDefined()"]
 
 
@@ -190,6 +193,18 @@ def store(carrier, v):
     if carrier == "Table.set_value":
         t = Table("t", 2, 2)
         t.set_value((1, 1), v)
+        return t, lambda t: t.get_value((1, 1))
+    if carrier == "Cell(percentage)":
+        return Cell(v, cell_type="percentage"), lambda c: c.value
+    if carrier == "Cell(currency)":
+        return Cell(v, cell_type="currency", currency="EUR"), lambda c: c.value
+    if carrier == "Cell.set_value(percentage)":
+        c = Cell("old")
+        c.set_value(v, cell_type="percentage")
+        return c, lambda c: c.get_value()
+    if carrier == "Table.set_value(currency)":
+        t = Table("t", 2, 2)
+        t.set_value((1, 1), v, cell_type="currency", currency="CHF")
         return t, lambda t: t.get_value((1, 1))
     if carrier == "VarSet()":
         return VarSet("v", value=v), lambda e: e.get_value()
@@ -274,7 +289,8 @@ def judge_one(res, carrier, v, tname, tag):
         ok, why = typed_equal(v, got)
         if not ok:
             report(path, "value", {"got": got, "got_type": type(got).__name__, "why": why})
-    issue = lexical_issue(v, value_node(el).attrib)
+    nt = "percentage" if "percentage" in carrier else "currency" if "currency" in carrier else "float"
+    issue = lexical_issue(v, value_node(el).attrib, numeric_type=nt)
     if issue:
         report("xml", "lexical", {"issue": issue, "xml": el.serialize()[:300]})
 
@@ -496,6 +512,9 @@ def run(ctx, res):
             if v is None and carrier in VAR_CARRIERS:
                 continue
             judge_one(res, carrier, v, tn, tag)
+        if tn in ("int", "float", "Decimal"):
+            for carrier in TYPED_CELL_CARRIERS:
+                judge_one(res, carrier, v, tn, tag)
     # documents: every shard saves its own slice (chunks of 40 values)
     for k in range(0, len(mine), 40):
         judge_documents(res, mine[k : k + 40], rng)
@@ -517,7 +536,9 @@ def replay(case):
     K.install()
     res = Res()
     v = _deser(case["value"])
-    if case["carrier"] == "sequence":
+    if case["carrier"] in TYPED_CELL_CARRIERS:
+        judge_one(res, case["carrier"], v, case["type"], "replay")
+    elif case["carrier"] == "sequence":
         judge_sequence(res, case["writer"], [_deser(d) for d in case["values"]])
     elif case["carrier"] in CELL_CARRIERS + VAR_CARRIERS:
         judge_one(res, case["carrier"], v, case["type"], "replay")
